@@ -299,7 +299,7 @@ Section AdjointProofs.
         unfold Adjoint.gfield.
         rewrite <- (re_mul_real (Av delta i)) by (now apply Av_real).
         f_equal. ring. }
-      rewrite Hg. ring.
+      rewrite Hg. unfold De. field. exact two_nz.
     Qed.
   End Expansion.
 End AdjointProofs.
